@@ -92,6 +92,7 @@ def generate(program, spec, qualname, recv_cls=None, case=None):
         st.assume(g)
     if c.when is not None:
         st.assume(calls.spec_eval(ex, st, env, c.when))
+    ex.entry_alive = ex.heap_get(st, "$alive")
     entry_heap = dict(st.heap)
     ex.entry_old = (entry_heap, dict(env), 0)
     ex.entry_env = dict(env)
